@@ -25,6 +25,7 @@ def model_compare(c, which):
 
 
 def oracle(c, v):
+    v.errors      # rendering the errors must leave the recorded errors pointing at the same places
     return oracles.c12_oracle(c["schema"], c["config"], v.document, v._errors)
 
 
